@@ -25,7 +25,7 @@ META = {
         'resized to (nfiber, npix); C16.TILING - spec_append allocates zeros of shape (nrows1+nrows2, max(npix1+nadd1, '
         'npix2+nadd2)), stores rows [0,nrows1) and [nrows1,nrows) with column slices of the sources\' own widths starting '
         'at nadd_i, at most one nadd_i non-zero with value |pixshift|, and has no return path that bypasses this. '
-        'C16.NO-MEMO - readspec and the file-location helpers it calls keep no module-level memo. NOT decided: correctness of file location itself (spec_path, latest_mjd), optional files present for some plates only, the align arithmetic.'),
+        'C16.NO-MEMO - readspec and the file-location helpers it calls keep no module-level memo. C16.LOCKSTEP also: the request vectors are filled by position, never through a mask on the VALUE of another request vector; C16.ROWSEL also: on the znum path the row is exactly (fibre-1)*nper + znum - 1 (polynomial normal form over all reaching definitions). NOT decided: correctness of file location itself (spec_path, latest_mjd), optional files present for some plates only, the align arithmetic.'),
     'floors': {'C16.INV-PERM': 3, 'C16.REORDER-ALL': 5, 'C16.LOCKSTEP': 6, 'C16.ROWSEL': 4, 'C16.LOGLAM': 3, 'C16.TILING': 7, 'C16.NO-MEMO': 3},
 }
 
